@@ -99,6 +99,20 @@ func ebnfRun(args []string) error {
 			}
 			text := p.String()
 			real["text"] = text
+			// String() is a pure function of the built parser: a second call, and a call after a failed parse whose error
+			// message renders grammar nodes, give the same text; so does the first call on a fresh parser that failed a parse
+			failParse(p)
+			if again := p.String(); again != text {
+				real["status"] = fmt.Sprintf("unstable: String() after a failed parse differs from the first call: %q", again)
+				return
+			}
+			if p2, err := mk(); err == nil {
+				failParse(p2)
+				if first := p2.String(); first != text {
+					real["status"] = fmt.Sprintf("unstable: the first String() on a parser that has failed a parse differs: %q", first)
+					return
+				}
+			}
 			tree, err := ebnf.ParseString(text)
 			if err != nil {
 				real["status"] = "not-parseable: " + err.Error()
@@ -123,6 +137,20 @@ func ebnfRun(args []string) error {
 		return err
 	}
 	return os.WriteFile(args[1], ob, 0o644)
+}
+
+// failParse calls ParseString on inputs that fail at different depths (the error text renders the expected node).
+func failParse(p gengram.Built) {
+	m := reflect.ValueOf(p).MethodByName("ParseString")
+	if !m.IsValid() {
+		return
+	}
+	for _, in := range []string{"", ")", "( (", "a a a a", "( x ) ( y", "x ! ! !", "1 2 3"} {
+		func() {
+			defer func() { _ = recover() }()
+			m.Call([]reflect.Value{reflect.ValueOf(""), reflect.ValueOf(in)})
+		}()
+	}
 }
 
 func stripPos(t *ebnf.EBNF) any {
